@@ -189,6 +189,9 @@ def judge(case, col):
     if damaged and not crashed:
         dd = diff(st0, st1)
         rec('mutates', norm_path(dd[0]), f'visitor returned None everywhere, tree changed: {dd}')
+    nonnodes = sorted({type(n).__name__ for n, _, _ in seen if n is None or isinstance(n, (str, int, float, bool, dict))})      # (column definitions are open)
+    if nonnodes and not crashed:
+        rec('visitor-called-with-non-node', '+'.join(nonnodes), f'the visitor was called with {nonnodes}')
     cnt = collections.Counter(id(n) for n, _, _ in seen)
     visited_idx = []
     dup = False
@@ -359,7 +362,22 @@ def cases(draw, tier='quick'):
     return {'dialect': d, 'sql': sql, 'origin': mode}
 
 
+# WITH in front of a parenthesised set operation: the parser keeps the CTE list on the Union node
+WITH_SETOP = ['with a as (select x from t where y = 1) (select * from a union select z from u where w = 2)',
+              'select * from (with a as (select x from t where y in (select 1)) (select * from a intersect select z from u)) q',
+              'with a as (select 1 as k), b as (select k from a) (select * from b except select * from a)',
+              'with a as (select case when x > 1 then 2 end as c from t) (select c from a union all select 3)',
+              'select case a when 1 then 2 end, case when b then c end from t',
+              'with a as (select x from t) ((select * from a) union (select * from a)) union select 1']
+
+
 def run_shard(col, k, nshards, tier, seed):
+    if k == 0:
+        for d in corpus.DIALECTS:
+            for q in WITH_SETOP:
+                c = {'dialect': d, 'sql': q, 'origin': 'with-setop'}
+                for r in judge(c, col):
+                    col.fail(r, c)
     for i, x in enumerate(corpus.accepted()):
         if i % nshards == k:
             c = {'dialect': x['dialect'], 'sql': x['sql'], 'origin': 'corpus'}
